@@ -19,12 +19,13 @@ package promapi
 //@   safe
 
 //@ func sliceRange [C13]
-//@   requires sliceSize > 0 && resolution >= 0
-//@   ensures len(slices) >= 1
-//@   ensures !slices[0].Start.After(start) && slices[len(slices)-1].End == end
+//@   requires sliceSize > 0
+//@   ensures resolution >= 0 ==> len(slices) >= 1
+//@   ensures resolution >= 0 ==> !slices[0].Start.After(start) && slices[len(slices)-1].End == end
 //@   ensures forall i int :: 0 <= i && i < len(slices)-1 ==>
 //@              slices[i+1].Start == slices[i].Start.Add(sliceSize) && slices[i].End == slices[i+1].Start.Add(-time.Second)
 //@   loop 1 invariant end.Sub(start) > resolution
+//@   loop 1 invariant len(slices) >= 0
 //@   loop 1 invariant len(slices) == 0 ==> !rstart.After(start)
 //@   loop 1 invariant len(slices) >= 1 ==> !slices[0].Start.After(start) &&
 //@              slices[len(slices)-1].Start == rstart.Add(-sliceSize) &&
@@ -32,8 +33,8 @@ package promapi
 //@   loop 1 invariant forall i int :: 0 <= i && i < len(slices)-1 ==>
 //@              slices[i+1].Start == slices[i].Start.Add(sliceSize) && slices[i].End == slices[i+1].Start
 //@   loop 1 decreases end.Sub(rstart)
-//@   loop 2 invariant 0 <= iter && iter <= len(slices) && len(slices) >= 1
-//@   loop 2 invariant !slices[0].Start.After(start) && slices[len(slices)-1].End == end
+//@   loop 2 invariant 0 <= iter && iter <= len(slices) && (resolution >= 0 ==> len(slices) >= 1)
+//@   loop 2 invariant resolution >= 0 ==> !slices[0].Start.After(start) && slices[len(slices)-1].End == end
 //@   loop 2 invariant forall i int :: 0 <= i && i < len(slices)-1 ==> slices[i+1].Start == slices[i].Start.Add(sliceSize)
 //@   loop 2 invariant forall i int :: 0 <= i && i < len(slices)-1 && i < iter ==> slices[i].End == slices[i+1].Start.Add(-time.Second)
 //@   loop 2 invariant forall i int :: 0 <= i && i < len(slices)-1 && i >= iter ==> slices[i].End == slices[i+1].Start
@@ -82,3 +83,8 @@ package promapi
 //@   loop 2 invariant forall i, j int :: len(old(dst)) <= i && i < j && j < len(dst) ==> dst[i].End.Add(step).Before(dst[j].Start)
 //@   loop 2 invariant forall i int :: len(old(dst)) <= i && i < iter ==> dst[i].End.Add(step).Before(ts)
 //@   safe
+
+// RangeQuery: the slice size handed to sliceRange must be positive (otherwise sliceRange never terminates);
+// the callee's precondition is an obligation at the call site.
+//@ func Prometheus.RangeQuery [C13]
+//@   at call sliceRange assert step > 0 && step <= 4*time.Hour ==> queryStep % step == 0
